@@ -517,7 +517,7 @@ func encoderPairing(c *Ctx, rule string) {
 		if fd := c.Decl("(*" + obj.Named.Obj().Name() + ").serialize"); fd != nil {
 			// key encoder: the encoder of the KEY token in the folded emission for one field
 			{
-				toks, _ := c.emitted(fd, c.view(fd).normalizePaths(c.serSX().Run(fd)), 1)
+				toks, _ := c.emitted(fd, c.serSX().Run(fd), 1)
 				for _, t := range toks {
 					if t.Kind == "KEY" && t.Enc != nil {
 						encs = append(encs, t.Enc)
@@ -654,9 +654,14 @@ func c16Guard(c *Ctx) {
 			}
 			nOK++
 			var ind *TCall
+			var pre []Step // effects before the call: accepted when they only build the indentation unit in buffers local to the path
 			for _, s := range p.Effects() {
 				if s.Kind == "call" && s.Call != nil && s.Call.Fun != nil && s.Call.Fun.FullName() == "encoding/json.Indent" && ind == nil {
 					ind = s.Call
+					continue
+				}
+				if ind == nil {
+					pre = append(pre, s)
 					continue
 				}
 				msg = "unexpected effect " + c.stepStr(s)
@@ -699,6 +704,7 @@ func c16Guard(c *Ctx) {
 			}
 			// the indentation unit: folded for every admissible indent (0..10) it must be exactly that many spaces
 			good = true
+			preBad := ""
 			for k := int64(0); k <= 10 && good; k++ {
 				se := &strEnv{hook: func(t Term) (sval, bool) {
 					if isParamTerm(t, indent) {
@@ -706,8 +712,22 @@ func c16Guard(c *Ctx) {
 					}
 					return sval{}, false
 				}}
+				se.ctx = c
+				for _, s := range pre {
+					if !se.execStep(s) || se.panic != "" {
+						preBad = "unexpected effect " + c.stepStr(s)
+						break
+					}
+				}
+				if preBad != "" {
+					break
+				}
 				sv, ok := se.val(ind.Args[3])
 				good = ok && se.panic == "" && sv.K == 's' && sv.S == strings.Repeat(" ", int(k))
+			}
+			if preBad != "" {
+				msg = preBad
+				break
 			}
 			if !good {
 				msg = "the indentation unit is not `indent` spaces for every indent in 0..10"
